@@ -85,7 +85,13 @@ def gen_case(r, cid, source, chain, lens, big=False):
         term = "ci:%s:%s" % (r.choice("vsf"), "/".join(map(str, old)) if old else "-")
     elif term in ("find", "findix", "any", "all"):
         term = term + ":" + rnd_filf(r)
-    ops = ["N:%d" % nt1, "%s:%d" % cs1] + stages + ["%s:%d" % cs2, "N:%d" % nt2]
+    lead = ["N:%d" % nt1, "%s:%d" % cs1]
+    trailing = ["%s:%d" % cs2, "N:%d" % nt2]
+    if r.random() < 0.3:
+        lead.reverse()                 # chunk_size before num_threads on the source
+    if r.random() < 0.5:
+        trailing.reverse()             # num_threads before chunk_size after the stages
+    ops = lead + stages + trailing
     if r.random() < 0.3:
         # parameters set on the source only: they must govern everything downstream
         ops = ops[:-2]
@@ -400,6 +406,22 @@ def nt_of(tok):
     return int(tok.split(":")[1])
 
 
+def is_setter(tok):
+    return tok.split(":")[0] in ("N", "C", "Cm")
+
+
+def settings_of(ops):
+    """(nt1, cs1 token, nt2, cs2 token, trailing setters present?) whatever the order inside a pair"""
+    lead = ops[:2]
+    trail = len(ops) >= 4 and is_setter(ops[-1]) and is_setter(ops[-2])
+    tr = ops[-2:] if trail else lead
+    nt1 = nt_of([t for t in lead if t.startswith("N:")][0])
+    cs1 = [t for t in lead if not t.startswith("N:")][0]
+    nt2 = nt_of([t for t in tr if t.startswith("N:")][0])
+    cs2 = [t for t in tr if not t.startswith("N:")][0]
+    return nt1, cs1, nt2, cs2, trail
+
+
 def analyse(cases, impl, model, full, survivors=None):
     survivors = survivors or {}
     """Compares implementation and model per case and evaluates the direct oracles.
@@ -428,9 +450,7 @@ def analyse(cases, impl, model, full, survivors=None):
         af, mf, ff = fields(a), fields(m), fields(fl)
         term = cf["term"].split(":")[0]
         ops = cf["ops"].split(";")
-        trail = ops[-1].startswith("N:")
-        nt1 = nt_of(ops[0])
-        nt2 = nt_of(ops[-1]) if trail else nt1
+        nt1, cs1_tok, nt2, cs2_tok, trail = settings_of(ops)
         cur.update({"term": term, "seq": nt2 == 1, "sites": mf.get("sites", "-")})
         out["dist"]["term_" + term] += 1
         out["dist"]["src_" + cf["shape"].split("_")[0]] += 1
@@ -581,7 +601,7 @@ def analyse(cases, impl, model, full, survivors=None):
                 sizes = [] if t[6][5:] == "-" else [int(x) for x in t[6][5:].split("/")]
                 if any(s != want for s in sizes):
                     oracle("C11", c, "Exact chunk size not handed to every worker", run)
-        cs2 = (ops[-2] if trail else ops[1]).split(":")
+        cs2 = cs2_tok.split(":")
         n_eager = 0 if mf.get("sites", "-") == "-" else len(mf["sites"].split(","))
         if cs2[0] == "C" and int(cs2[1]) > 0 and len(runs) > n_eager and nt2 != 1:
             t = runs[-1].split(":")
